@@ -60,8 +60,10 @@ Definition msig17 (m : PS.msig) : DC.msig :=
   else if bytes_eqb name PS.dc_into_name then DC.mk_msig DC.n_into (N.to_nat np) (N.to_nat nr) p0
   else DC.mk_msig ("_"%char :: name) (N.to_nat np) (N.to_nat nr) false.
 
+(* the switch of createFieldSnippet takes the *types.Named case: the field's type is a named type (error included) or an
+   alias of one *)
 Definition is_named_ty (t : PS.ty) : bool :=
-  match t with PS.TNamed _ _ _ _ | PS.TError => true | _ => false end.
+  match PS.unalias t with PS.TNamed _ _ _ _ | PS.TError => true | _ => false end.
 
 Section Adapter.
   Variable L : bytes -> bytes.
@@ -92,6 +94,7 @@ Section Adapter.
     | PS.TSlice e => option_map DC.FSlice (ety17 e)
     | PS.TMap k v => option_map (DC.FMap (text_of k)) (ety17 v)
     | PS.TPtr _ | PS.TArray _ _ => None
+    | PS.TAlias _ _ _ => None      (* C17's model has no alias types *)
     end.
 
   (* C17 resolves a same-package named type through its type graph; C18 carries kind and methods in the field type.
